@@ -87,7 +87,8 @@ type Runtime struct {
 	Fired   bool
 	FiredK  probeKind
 	FiredI  Invocation
-	Variant int // data builder variant (C13/C14): equal variants build deep-equal data
+	Variant int       // data builder variant (C13/C14): equal variants build deep-equal data
+	Ctx     *ctxProbe // C10 inside renders: contexts kept by helpers (nil: helpers ck/pbd are inert)
 }
 
 type wrongKind struct{ why string }
@@ -364,6 +365,28 @@ func (rt *Runtime) helperData() map[string]interface{} {
 		},
 		"pr2": func(inner int, help plush.HelperContext) (string, error) {
 			return help.Render(fmt.Sprintf("{<%%= pv(%d, n1) %%>}", inner))
+		},
+		// ck keeps the context it is handed; pbd runs its block with a root context of its own (harness/c10exec.go)
+		"ck": func(help plush.HelperContext) string {
+			if rt.Ctx != nil {
+				rt.Ctx.keep(help)
+			}
+			return ""
+		},
+		"pbd": func(v int, help plush.HelperContext) (template.HTML, error) {
+			root := plush.NewContextWith(map[string]interface{}{"bw": v})
+			var before []string
+			if rt.Ctx != nil {
+				before = rt.Ctx.observe(root)
+			}
+			s, err := help.BlockWith(root)
+			if rt.Ctx != nil {
+				rt.Ctx.detached(root, before)
+			}
+			if err != nil {
+				return "", err
+			}
+			return template.HTML("{" + s + "}"), nil
 		},
 		"partialFeeder": func(name string) (string, error) {
 			if rt.enter(0, name, pkFeeder) {
